@@ -475,6 +475,10 @@ func main() {
 		os.MkdirAll(filepath.Dir(*evid), 0755)
 		os.WriteFile(*evid, data, 0644)
 	}
+	// a reported violation decides the exit code even when other obligations hit a tool error
+	if len(violations) > 0 {
+		exit(1)
+	}
 	if len(solverErrors) > 0 {
 		for i, e := range solverErrors {
 			if i < 5 {
@@ -483,9 +487,6 @@ func main() {
 		}
 		fmt.Printf("UNDECIDED %d obligations could not be parsed by any solver (tool error, not a verdict)\n", len(solverErrors))
 		exit(2)
-	}
-	if len(violations) > 0 {
-		exit(1)
 	}
 	if len(undecided) > 0 {
 		exit(2)
